@@ -163,6 +163,7 @@ pub fn drive(a: &Args) -> i32 {
             request_timeout: Duration::from_secs(2),
             delay_max_ms: [0, 5, 50, 400][rng.gen_range(0..4)],
             p_silent: if seg % 2 == 0 { 0.0 } else { rng.gen_range(0.0..0.5) },
+            conn_timeout_mult: 1,
         };
         let hub_rng = common::rng(1000 + seg);
         let mut events: Vec<Value> = Vec::new();
@@ -174,6 +175,12 @@ pub fn drive(a: &Args) -> i32 {
                     std::process::exit(2)
                 }
             };
+            if seg % 2 == 1 {
+                // addresses invented by liars are hosts that never answer a dial (otherwise: nobody listens, refused at once)
+                for i in 500..900 {
+                    c.hub.add_blackhole(&net::addr_for(i));
+                }
+            }
             let mut invented = Vec::new();
             add_liars(&c, &mut rng, &mut invented).await;
             c.apply_silence();
